@@ -75,16 +75,17 @@ fn verdict(vd: &mut Verdicts, w: &World, pass: bool, kind: &str, detail: &str) {
 /// (`fspd variant`), so that the byte-exact tie holds before and after each repair is applied:
 /// dd = delete of a grown directory follows the chain, pl = put refuses more than 128 index blocks,
 /// bc = ceil(total/4096) bitmap blocks (a 4096-block volume has 4089 free blocks after format, not 4088),
-/// fh = a file image without chunk 0 gets a hole in slot 0 of its index block (get returns no chunk 0)
-fn variant_bits() -> [bool; 4] {
+/// fh = a file image without chunk 0 gets a hole in slot 0 of its index block (get returns no chunk 0),
+/// ff = a file image with an empty `fs_type` is refused before the directory is touched (the image is unchanged)
+fn variant_bits() -> [bool; 5] {
     use a2kit::fs::{prodos, DiskFS};
     use a2kit::img;
-    static BITS: std::sync::OnceLock<[bool; 4]> = std::sync::OnceLock::new();
+    static BITS: std::sync::OnceLock<[bool; 5]> = std::sync::OnceLock::new();
     *BITS.get_or_init(|| {
-        // `A2V_PD_VARIANT=1100` (dd pl bc fh) overrides the probe: for checking that a wrong variant is noticed
+        // `A2V_PD_VARIANT=11000` (dd pl bc fh ff) overrides the probe: for checking that a wrong variant is noticed
         if let Ok(v) = std::env::var("A2V_PD_VARIANT") {
             let b: Vec<bool> = v.chars().map(|c| c == '1').collect();
-            if b.len() == 4 { return [b[0], b[1], b[2], b[3]]; }
+            if b.len() == 5 { return [b[0], b[1], b[2], b[3], b[4]]; }
         }
         let mk = |n: u16| -> Result<prodos::Disk, String> {
             let img = Box::new(img::dsk_po::PO::create(n));
@@ -121,8 +122,17 @@ fn variant_bits() -> [bool; 4] {
             let g = d.get("H").map_err(|e| e.to_string())?;
             Ok(!g.chunks.contains_key(&0))
         });
+        let ff = guarded(|| -> Result<bool, String> {
+            let mut d = mk(280)?;
+            let before = d.get_img().to_bytes();
+            let mut f = d.new_fimg(None, true, "S").map_err(|e| e.to_string())?;
+            f.chunks.insert(0, vec![1; 16]);
+            f.set_eof(16); f.access = vec![0xC3]; f.fs_type = vec![];
+            let r = d.put(&f);
+            Ok(r.is_err() && d.get_img().to_bytes() == before)
+        });
         let b = |r: Result<Result<bool, String>, String>| matches!(r, Ok(Ok(true)));
-        [b(dd), b(pl), b(bc), b(fh)]
+        [b(dd), b(pl), b(bc), b(fh), b(ff)]
     })
 }
 
@@ -132,7 +142,7 @@ fn ask(drv: &mut Drv, req: &str) -> String {
     let mut ans = drv.ask(&format!("fspd {}", req));
     if ans == "need-variant" {
         let v = variant_bits();
-        let a = drv.ask(&format!("fspd variant {} {} {} {}", v[0] as u8, v[1] as u8, v[2] as u8, v[3] as u8));
+        let a = drv.ask(&format!("fspd variant {} {} {} {} {}", v[0] as u8, v[1] as u8, v[2] as u8, v[3] as u8, v[4] as u8));
         if a != "ok" { return format!("variant-failed:{}", a); }
         ans = drv.ask(&format!("fspd {}", req));
     }
@@ -260,10 +270,12 @@ pub fn after_step(drv: &mut Drv, w: &mut World, vd: &mut Verdicts, desc: &str) {
 /// in /repo (ff7dba9, 7c065bc, 2120bff, 67f0f58), so a failure is a regression and is reported as a failing input.
 /// `A2V_PD_DIRECTED=0` turns failures into counts (`pending-fix:<oracle>`), for runs against an older tree.
 const DIRECTED_STRICT: bool = true;
+/// findings whose repair is proposed but not yet applied in /repo: counted, not reported (move to strict once applied)
+const PENDING: &[&str] = &[];
 
 fn report(vd: &mut Verdicts, w: &World, owners: &[Focus], pass: bool, oracle: &str, detail: &str) {
     let strict = std::env::var("A2V_PD_DIRECTED").map(|v| v != "0").unwrap_or(DIRECTED_STRICT);
-    if !pass && !strict { vd.out.count(&format!("pending-fix:{}", oracle)); return; }
+    if !pass && (!strict || (PENDING.contains(&oracle) && std::env::var("A2V_PD_DIRECTED").map(|v| v != "1").unwrap_or(true))) { vd.out.count(&format!("pending-fix:{}", oracle)); return; }
     let _ = w;
     for f in owners { vd.v(*f, pass, oracle, detail, &[format!("directed scenario {}", oracle)]); }
 }
@@ -384,6 +396,34 @@ fn directed(w: &World, vd: &mut Verdicts) {
         Ok(Err(e)) => vd.out.count(&format!("directed-setup-error:{}", e)),
         Err(p) => report(vd, w, &[Focus::C01, Focus::C03], false, "prodos-put-first-chunk-hole", &format!("panic {}", p)),
     }
+    // E: a file image one of whose fields is too short (finding `prodos-put-field-lengths`, proposed_fixes/prodos-put-field-lengths.diff):
+    // refusing is right, but not after the file count of the directory has been raised (and not with a panic)
+    let e = guarded(|| -> Result<Option<String>, String> {
+        for which in ["fs_type", "aux", "version", "access"] {
+            let mut d = mk()?;
+            file(&mut d, "KEEP", vec![(0, vec![0xAA; 512])], 512)?;
+            let bytes0 = d.get_img().to_bytes();
+            let mut f = d.new_fimg(None, true, "S").map_err(|e| e.to_string())?;
+            f.chunks.insert(0, vec![1; 16]);
+            f.set_eof(16); f.access = vec![0xC3]; f.fs_type = vec![6];
+            match which { "fs_type" => f.fs_type = vec![], "aux" => f.aux = vec![0], "version" => f.version = vec![], _ => f.access = vec![] }
+            match guarded(|| d.put(&f).map_err(|e| e.to_string())) {
+                Ok(Ok(_)) => return Ok(Some(format!("put with a {} field that is too short was accepted", which))),
+                Ok(Err(e)) => if d.get_img().to_bytes() != bytes0 {
+                    let b = d.get_img().to_bytes();
+                    return Ok(Some(format!("put S with a {} field that is too short is refused ({}) but the volume changed: the file count of the volume directory is {} with 1 entry in use", which, e, b[1024 + 4 + 0x21])));
+                },
+                Err(p) => return Ok(Some(format!("put S with a {} field that is too short panics: {}", which, p))),
+            }
+        }
+        Ok(None)
+    });
+    match e {
+        Ok(Ok(None)) => report(vd, w, &[Focus::C02, Focus::C03], true, "prodos-put-field-lengths", ""),
+        Ok(Ok(Some(why))) => report(vd, w, &[Focus::C02, Focus::C03], false, "prodos-put-field-lengths", &why),
+        Ok(Err(e)) => vd.out.count(&format!("directed-setup-error:{}", e)),
+        Err(p) => report(vd, w, &[Focus::C02, Focus::C03], false, "prodos-put-field-lengths", &format!("panic {}", p)),
+    }
     variant_tie(w, vd);
 }
 
@@ -433,6 +473,15 @@ fn variant_tie(w: &World, vd: &mut Verdicts) {
         mirror(&mut drv, &d.get_img().to_bytes(), false)?;
         let a = ask(&mut drv, &format!("put {} {} {} {} {} {} {} 1:{}", hxs("H"), hx(&f.fs_type), hx(&f.aux), hx(&f.access), 1024, hx(&time), res_tok(&res), hx(&data)));
         if a != "ok" { return Ok(Some(format!("put H chunks={{1}} (variant {:?}, real {}): model answered [{}]", v, res_tok(&res), a))); }
+        // 3: put of a file image with an empty `fs_type`
+        let mut f = d.new_fimg(None, true, "S").map_err(|e| e.to_string())?;
+        f.chunks.insert(0, vec![1u8; 16]);
+        f.set_eof(16); f.access = vec![0xC3]; f.fs_type = vec![];
+        let time = pd_time();
+        let res = d.put(&f).map(|_| ()).map_err(|e| e.to_string());
+        mirror(&mut drv, &d.get_img().to_bytes(), false)?;
+        let a = ask(&mut drv, &format!("put {} {} {} {} {} {} {} 0:-", hxs("S"), hx(&f.fs_type), hx(&f.aux), hx(&f.access), 16, hx(&time), res_tok(&res)));
+        if a != "ok" { return Ok(Some(format!("put S with an empty fs_type (variant {:?}, real {}): model answered [{}]", v, res_tok(&res), a))); }
         Ok(None)
     });
     match r {
